@@ -169,7 +169,7 @@ theorem ir_set_len_ap (r : InlineRef) (n : Nat) (rf : Refuse) (st : List Bytes) 
     (r.rs_set_len n : M ρ Unit) ⟨rf, st, hp, .inl raw⟩ =
       if n ≤ MAX_INLINE then .next () ⟨rf, st, hp, .inl (inlSetLen raw n)⟩ else .ub .oob := by simp only [InlineRef.rs_set_len]
 
-theorem field_0_ap (s : St) : (Repr.field_0 : M ρ RawPtr) s = .next ⟨s.self⟩ s := by cases s; rfl
+theorem field_0_ap (s : St) : (Repr.field_0 : M ρ RawPtr) s = .next ⟨s.self, false⟩ s := by cases s; rfl
 theorem overflow_ap (r : Handle) (s : St) : (ref_count_overflow r : M ρ Unit) s = .ub .rcOverflow := by cases s; rfl
 
 theorem sstr_len_ap (t : SStr) (s : St) : (t.rs_len : M ρ Nat) s = .next t.b.length s := by cases s; rfl
@@ -177,7 +177,7 @@ theorem static_new_ap (t : SStr) (s : St) :
     (StaticBuffer.new t : M ρ (Rs StaticBuf)) s =
       .next (if t.b.length > STATIC_MAX_LEN then .err else .ok ⟨t.sid, t.b.length⟩) s := by cases s; rfl
 
-theorem array_repeat_ap (x n : Nat) (s : St) : (array_repeat x n : M ρ ArrayBuf) s = .next ⟨n⟩ s := by cases s; rfl
+theorem array_repeat_ap (x n : Nat) (s : St) : (array_repeat x n : M ρ ArrayBuf) s = .next ⟨n, List.replicate n (UInt8.ofNat x)⟩ s := by cases s; rfl
 theorem encode_utf8_ap (c : Chr) (buf : ArrayBuf) (s : St) :
     (c.rs_encode_utf8 buf : M ρ Str) s = if c.b.length ≤ buf.n then .next ⟨c.b⟩ s else .ub .oob := by cases s; rfl
 
